@@ -41,12 +41,13 @@
                                                                  RPCAP TIMES SELEC INCON INDOM MULTI DIFFU FOFT GOFT COFT,
                                                                  TOUGH2
                                                                  flavour, in-file mesh), whole_sections_preserved,
-                                                                 write_read_write_whole_partial; field by field: whole_fields
+                                                                 write_read_write_whole_partial; field by field: whole_fields;
+                                                                 with an ASCII MESH file: read_write_whole_meshfile_partial
   Not proved as theorems (modelled and checked by the correspondence and the oracle only): the
   composition into `read (write d) = canon d` for SIMUL, MESHM and SHORT, AUTOUGH2 objects and the
   auxiliary files; the binary MESHA/MESHB pair; idempotence of `canonV` on reals (C02's domain).
 -/
-import PyTough.Proofs.T2WholeObject
+import PyTough.Proofs.T2WholeMesh
 open Py Model Model.T2 Proofs Proofs.T2 Proofs.Incon
 open Gen.Sections (Rec)
 namespace Props.C01
@@ -443,7 +444,8 @@ abbrev canonWhole (d d' : T2Data) : T2Data :=
     theorems, each on the reader's object at the moment the section is met (so blocks are resolved against the
     rock types *read*, connections against the blocks *read*).  COFT only while the reader has no
     grid yet (its section theorem is for names, not resolved connections).  Missing: SIMUL (AUTOUGH2 objects), MESHM
-    (its keyword line is `MESHMAKER`, not the five-letter keyword), SHORT; the auxiliary files. -/
+    (its keyword line is `MESHMAKER`, not the five-letter keyword), SHORT; the binary and extra-precision
+    auxiliary files. -/
 theorem read_write_whole_partial (d : T2Data) (cfg : WriteCfg) (d' : T2Data) (f : Files) (hw : d.write cfg = .ok (d', f))
     (hsim : d.simulator = []) (hxp : d.extraPrecision = []) (hcfg : cfg.mesh = .infile) (hend : IsEnd d.endKeyword)
     (hkinds : d'.sections.all (wholeKinds.contains ·) = true)
@@ -457,6 +459,45 @@ theorem read_write_whole_partial (d : T2Data) (cfg : WriteCfg) (d' : T2Data) (f 
 theorem whole_sections_preserved (d d' : T2Data) :
     (canonWhole d d').sections = d'.sections ∧ (canonWhole d d').endKeyword = d.endKeyword :=
   ⟨by simpa [startObj, T2Data.empty] using canonFrom_sections (stepCanon d') (stepCanon_sections d') d'.sections (startObj d), rfl⟩
+
+/-- the object `read()` returns for a main file and an ASCII MESH file written by `write()`: the sections of the
+    main file (all but ELEME / CONNE) as in `canonWhole`, then the blocks and connections of the MESH file, whose
+    two sections are recorded last -/
+abbrev canonWholeMesh (d d' : T2Data) : T2Data :=
+  { canonFrom (stepCanon d') (d'.sections.filter notMesh) (startObj d) with
+      blocks := canonBlocks d'.blocks, conns := canonConns d'.conns,
+      sections := (canonFrom (stepCanon d') (d'.sections.filter notMesh) (startObj d)).sections ++ [c!"ELEME", c!"CONNE"],
+      endKeyword := d.endKeyword }
+
+/-- **read (write d) = canon d with the mesh in an ASCII MESH file** (`write(filename, meshfilename)`): the main
+    file is read by the keyword loop as in `read_write_whole_partial` (sections other than ELEME / CONNE), then,
+    the object having no blocks yet, `read_meshfile` reads ELEME and CONNE from the MESH file — blocks resolved
+    against the rock types read from the main file, connections against the blocks read.  Same `_partial`
+    restrictions on kinds and flavour.  (`_sections` of the re-read object lists ELEME, CONNE last: they were read
+    last.) -/
+theorem read_write_whole_meshfile_partial (d : T2Data) (cfg : WriteCfg) (d' : T2Data) (f : Files)
+    (hw : d.write cfg = .ok (d', f))
+    (hsim : d.simulator = []) (hxp : d.extraPrecision = []) (hcfg : cfg.mesh = .ascii) (hend : IsEnd d.endKeyword)
+    (hkinds : (d'.sections.filter notMesh).all (wholeKinds.contains ·) = true)
+    (hgood : GoodFrom (stepCanon d') (GoodStep d') (d'.sections.filter notMesh) (startObj d))
+    (hb : ∀ b ∈ d'.blocks, GoodBlock (canonFrom (stepCanon d') (d'.sections.filter notMesh) (startObj d)).rocks b)
+    (hwb : ∀ b ∈ d'.blocks, ∃ l, writeBlock mainTabs b = .ok l)
+    (hc : ∀ c ∈ d'.conns, GoodConn (canonBlocks d'.blocks) c) (hwc : ∀ c ∈ d'.conns, ∃ l, writeConn mainTabs c = .ok l) :
+    f.mesh.isSome = true ∧ T2Data.read .default f = .ok (canonWholeMesh d d') := by
+  have hnob : (canonFrom (stepCanon d') (d'.sections.filter notMesh) (startObj d)).blocks = [] := by
+    have h := canonFrom_proj T2Data.blocks _ c!"ELEME" _ (fun _ _ => rfl) (stepCanon_blocks d')
+      (d'.sections.filter notMesh) (startObj d)
+    have hn : c!"ELEME" ∉ d'.sections.filter notMesh := by
+      intro hm
+      have := (List.mem_filter.mp hm).2
+      exact absurd this (by decide)
+    rw [if_neg hn] at h
+    exact h
+  refine ⟨?_, whole_read_write_ascii d (stepCanon d') (GoodStep d') (· ∈ wholeKinds) wholeKinds_sections hsim hxp hend cfg hcfg
+    d' f hw (fun kw d0 hk hx hg => step_ok d' kw d0 hk hx hg)
+    (fun kw hk => by simpa using (List.all_eq_true.mp hkinds) kw hk) hgood hnob hb hwb hc hwc⟩
+  obtain ⟨_, _, _, _, _, _, _, rfl⟩ := write_ascii d hsim hxp cfg hcfg d' f hw
+  rfl
 
 /-- **the whole model, field by field**: in the object read back, the title is the written one (cut to 80 columns);
     the rock types, blocks, connections and generators are the canonical lists (each value as its field carries it,
@@ -647,7 +688,7 @@ example : ∃ f, exWhole.write exCfg = .ok (exWhole.updateSections, f) := by
 example : exWhole.updateSections.sections = [c!"ROCKS", c!"PARAM", c!"MOMOP", c!"START", c!"ELEME", c!"CONNE"] ∧
     exWhole.updateSections.sections.all (wholeKinds.contains ·) = true ∧ IsEnd exWhole.endKeyword := by
   refine ⟨by decide +kernel, by decide +kernel, Or.inl (by decide +kernel)⟩
-example : GoodFrom (stepCanon exWhole.updateSections) (GoodStep exWhole.updateSections)
+theorem exWhole_good : GoodFrom (stepCanon exWhole.updateSections) (GoodStep exWhole.updateSections)
     [c!"ROCKS", c!"PARAM", c!"MOMOP", c!"START", c!"ELEME", c!"CONNE"] (startObj exWhole) := by
   refine ⟨?rocks, ?param, ?momop, ?start, ?eleme, ?conne, trivial⟩
   case start => exact (rfl : exWhole.start = true)
@@ -699,5 +740,15 @@ example : GoodFrom (stepCanon exWhole.updateSections) (GoodStep exWhole.updateSe
         rfl
       subst this
       decide +kernel
+
+-- the same object written with an ASCII MESH file: the main file keeps ROCKS PARAM MOMOP START, the block goes to MESH
+example : (∃ f, exWhole.write ⟨.ascii, none, none⟩ = .ok (exWhole.updateSections, f)) ∧
+    exWhole.updateSections.sections.filter notMesh = [c!"ROCKS", c!"PARAM", c!"MOMOP", c!"START"] := by
+  refine ⟨⟨(match exWhole.write ⟨.ascii, none, none⟩ with | .ok x => x.2 | .error _ => ⟨[], none, none⟩), ?_⟩, ?_⟩ <;> decide +kernel
+example : GoodFrom (stepCanon exWhole.updateSections) (GoodStep exWhole.updateSections)
+      [c!"ROCKS", c!"PARAM", c!"MOMOP", c!"START"] (startObj exWhole) ∧
+    (∀ b ∈ exWhole.updateSections.blocks, GoodBlock (canonFrom (stepCanon exWhole.updateSections)
+      [c!"ROCKS", c!"PARAM", c!"MOMOP", c!"START"] (startObj exWhole)).rocks b) :=
+  ⟨⟨exWhole_good.1, exWhole_good.2.1, exWhole_good.2.2.1, exWhole_good.2.2.2.1, trivial⟩, exWhole_good.2.2.2.2.1.1⟩
 
 end Props.C01
